@@ -26,7 +26,11 @@ CONSTANTS Kind,        \* "rr" | "stream" | "channel": the interaction explored 
           HasPub,      \* channel: the requester has a publisher of its own
           LibSource,   \* publishers are library stream sources: they emit exactly within credit, autonomously (C06)
           Slot,        \* 0 | 1: which of the connection's interactions this is (RSocketMC2 runs two side by side)
-          SidOff       \* 0, or 2 when the other interaction has the same initiator and takes that endpoint's first id
+          SidOff,      \* 0, or 2 when the other interaction has the same initiator and takes that endpoint's first id
+          AsImplemented \* BOOLEAN: request-channel reacts the way the LIBRARY does where it deviates from the design (open findings
+                       \* F17a/F17b/F17c: the two directions of a channel are independent - a requester's cancel() neither cancels
+                       \* its own publisher nor releases the stream, an endpoint that sent ERROR keeps the stream registered and still
+                       \* forwards request(n)).  RSocketMC_channel_impl.cfg must REFUTE NoClauseFails.
 
 VARIABLES mon, viol, d
 
@@ -211,14 +215,15 @@ PubError(role) ==
            evs == <<[App(e, "app_pub_error", role) EXCEPT !.code = 513]>>
                   \o (IF live THEN <<[Frame(e, "enq", "ERROR") EXCEPT !.code = 513]>> ELSE <<>>)
        IN /\ Do(evs)
-          /\ d' = IF live THEN Fin(e) ELSE d
+          /\ d' = IF live /\ ~(AsImplemented /\ Kind = "channel") THEN Fin(e) ELSE d
 
 (* ---- the subscribing application ------------------------------------------------------------------------------------ *)
 SubRequestN(role, n) ==
     /\ Kind # "rr" /\ Has(mon.I, IID) /\ It.sig[role] = "sub" /\ ~It.cancelled[role] /\ d.grants[role] < MaxGrants
     /\ (role = "resp" => Kind = "channel")
     /\ LET e == EpOf(role)
-           live == Registered(e) /\ ~Terminated(Wm(e)) /\ ~Wm(e).peerDone
+           live == IF AsImplemented /\ Kind = "channel" THEN Registered(e) /\ ~Wm(e).peerDone
+                   ELSE Registered(e) /\ ~Terminated(Wm(e)) /\ ~Wm(e).peerDone
            evs == IF live THEN <<[App(e, "app_request_n", role) EXCEPT !.n = n]>> \o <<[Frame(e, "enq", "REQUEST_N") EXCEPT !.n = n]>>
                   ELSE <<>>       \* request(n) on a finished stream puts nothing on the wire
        IN /\ live
@@ -230,12 +235,12 @@ SubCancel(role) ==
     /\ (role = "resp" => Kind = "channel")
     /\ LET e == EpOf(role)
            live == Registered(e) /\ ~Terminated(Wm(e))
-           ownPub == Kind = "channel" /\ role = "req" /\ ProducerActive("req")
+           ownPub == Kind = "channel" /\ role = "req" /\ ProducerActive("req") /\ ~AsImplemented
            evs == <<App(e, "app_cancel", role)>>
                   \o (IF live THEN <<Frame(e, "enq", "CANCEL")>> ELSE <<>>)
                   \o (IF live /\ ownPub THEN <<App(e, "cb_pub_cancel", "req")>> ELSE <<>>)
            w == Wm(e)
-           fin == live /\ (role = "req" \/ w.ownDone \/ w.ownCut)
+           fin == live /\ (IF AsImplemented /\ Kind = "channel" THEN w.ownDone \/ w.ownCut ELSE (role = "req" \/ w.ownDone \/ w.ownCut))
        IN /\ Do(evs)
           /\ d' = IF fin THEN Fin(e) ELSE d
 
